@@ -411,15 +411,86 @@ def worker(args):
     return res
 
 
+LOCAL_KINDS = ('len-1', 'len+1', 'zero-length', 'flag-optional-flipped', 'flag-transitive-flipped')
+
+
+def announced_of(outcome, data, events):
+    """-> (routes announced on the API or stored in Adj-RIB-In, problems)"""
+    probs = []
+    api = {}
+    for ev in events:
+        try:
+            gann, gwds, gattrs, dup = c02.canon_json(json.loads(ev)['neighbor']['message'])
+        except Exception as e:  # noqa: BLE001
+            probs.append(f'{type(e).__name__}: {e}')
+            continue
+        api.update(gann)
+    rib = data if outcome == 'update' else {}
+    return set(api) | set(rib), probs
+
+
+def pair_worker(args):
+    """thorough: two attributes of the same UPDATE corrupted at once (corruptions that touch one attribute only: lengths,
+    flags, the RFC-named invalid values).  Nothing may be announced unless both attributes are of the attribute-discard
+    class; a reset must carry a 3/x code; nothing may raise."""
+    asn4, seed = args
+    res = {'exec': 0, 'viol': {}, 'outcomes': collections.Counter(), 'samples': []}
+    base = seed_tlvs(seed, asn4)
+    n = len(base)
+    routes, _ = seed_expect(seed, asn4)
+    mp_routes = {w.nlri_key(x) for x in (SEEDS[seed]['mp'][3] if SEEDS[seed]['mp'] else [])}
+    local = {}
+    for idx in range(n):
+        local[idx] = [(kind, lst[idx]) for kind, lst, overrun in corruptions(base, idx)
+                      if not overrun and len(lst) == n and (kind in LOCAL_KINDS or kind.startswith('value:'))]
+    plain = [w.encode_attr(c, v, flags=f) for c, f, v in base]
+    for i in range(n):
+        for j in range(i + 1, n):
+            for ka, ba in local[i]:
+                for kb, bb in local[j]:
+                    attrs = list(plain)
+                    attrs[i], attrs[j] = ba, bb
+                    body = w.encode_update(attrs=attrs, nlri=SEEDS[seed]['nlri'])
+                    out, data, events = drive(asn4, body)
+                    res['exec'] += 1
+                    ca, cb = base[i][0], base[j][0]
+                    res['outcomes'][(0, 'pair', out if out != 'notify' else f'notify{data[0]}/{data[1]}')] += 1
+                    viols = []
+                    if out == 'exception':
+                        viols.append((f'pair:exception:{data[0]}', f'{data[0]}: {data[1]}'))
+                    elif out == 'notify' and data[0] != 3:
+                        viols.append((f'pair:reset-with-non-update-code:{data[0]}/{data[1]}', f'attributes {ca} ({ka}) and {cb} ({kb}) malformed: session reset with {data[0]}/{data[1]}'))
+                    else:
+                        ann, probs = announced_of(out, data, events)
+                        ours = {k for k in ann if k in routes}
+                        if w.MP_REACH in (ca, cb):
+                            other = cb if ca == w.MP_REACH else ca
+                            # routes of the NLRI field survive a malformed MP_REACH_NLRI, unless the other attribute forbids it too
+                            bad = {k for k in ours if k in mp_routes} | (ours if other not in DISCARD else set())
+                        else:
+                            bad = ours if not (ca in DISCARD and cb in DISCARD) else set()
+                        if bad:
+                            viols.append((f'pair:announced-with-malformed-attributes:attr{ca}+attr{cb}', f'{sorted(bad)[:2]} announced although attribute {ca} ({ka}) and attribute {cb} ({kb}) are malformed'))
+                    for sig, what in viols:
+                        case = {'asn4': asn4, 'seed': seed, 'pair': [i, ka, j, kb]}
+                        v = res['viol'].get(sig)
+                        res['viol'][sig] = (what + f' [seed {seed} asn4 {asn4}] body {body.hex()[:120]}...', case, 1) if v is None else (v[0], v[1], v[2] + 1)
+    return res
+
+
 def run(ctx: core.Ctx) -> None:
     ctx.rule = (f'{len(SEEDS)} seeds (IPv4 NLRI x2, MP_REACH IPv6 x2, both, MP_REACH labeled x2, IPv4 NLRI + MP_REACH VPN) x 2 sessions (ASN4 on/off) x every attribute of the seed ({len(SEED_ATTRS)} + MP_REACH) x 3 positions (first, middle, last) x every corruption '
                 '(length-1, length+1, zero length, overrun of the block, swallowing the next attribute, optional/transitive flag flipped, RFC-named invalid values, duplicate, extended-length flag lie); '
-                'non-trivial = every case (each is a distinct malformed UPDATE); distinct outcomes = (attribute, corruption, result class)')
+                '(thorough: also every pair of single-attribute corruptions - lengths, flags, RFC-named values - of two attributes of one UPDATE); non-trivial = every case (each is a distinct malformed UPDATE); distinct outcomes = (attribute, corruption, result class)')
     ctx.assumptions += ['reference encoder vt/ref/wire.py', 'RFC 7606 classes: ATOMIC_AGGREGATE/AGGREGATOR/AS4_AGGREGATOR attribute-discard, others treat-as-withdraw; a session reset with 3/x is always accepted; announcing nothing is accepted']
     pool = mp.Pool(min(16, os.cpu_count() or 1))
     outcomes = collections.Counter()
     try:
-        for res in pool.imap_unordered(worker, [(a, s) for a in (True, False) for s in SEEDS]):
+        jobs = [(worker, (a, s)) for a in (True, False) for s in SEEDS]
+        if ctx.tier != 'quick':
+            jobs += [(pair_worker, (a, s)) for a in (True, False) for s in SEEDS]
+        asyncs = [pool.apply_async(fn, (arg,)) for fn, arg in jobs]
+        for res in (a.get() for a in asyncs):
             ctx.count('executions', res['exec'])
             ctx.count('nontrivial', res['exec'])
             for k, v in res['outcomes'].items():
@@ -434,11 +505,14 @@ def run(ctx: core.Ctx) -> None:
         pool.join()
     ctx.counters['states'] = len(outcomes)
     ctx.counters['transitions'] = ctx.counters.get('executions', 0)
-    ctx.coverage_extra['outcome_classes'] = dict(sorted(outcomes.items())[:400])
+    ctx.coverage_extra['outcome_classes'] = {str(k): v for k, v in sorted(outcomes.items(), key=repr)[:400]}
 
 
 def replay(case):
     asn4, seed = case['asn4'], case['seed']
+    if 'pair' in case:
+        res = pair_worker((asn4, seed))
+        return [{'signature': sig, 'what': v[0]} for sig, v in res['viol'].items()]
     base = seed_tlvs(seed, asn4)
     n = len(base)
     if case['kind'] == 'seed':
